@@ -602,7 +602,17 @@ func (l *IPFSLog) Join(otherLog iface.IPFSLog, size int) (iface.IPFSLog, error) 
 		}
 	}
 
-	mergedHeads := entry.FindHeads(l.heads.Merge(otherHeads))
+	// only an entry this log holds can become one of its heads, and as the entry it holds
+	// (checked when it was admitted): a head of the other log that was not admitted, or
+	// another object under a known hash, takes no part in the computation of the heads
+	admittedHeads := entry.NewOrderedMap()
+	for _, h := range otherHeads.Slice() {
+		if own, ok := l.Entries.Get(h.GetHash().String()); ok {
+			admittedHeads.Set(own.GetHash().String(), own)
+		}
+	}
+
+	mergedHeads := entry.FindHeads(l.heads.Merge(admittedHeads))
 
 	for idx, e := range mergedHeads {
 		// notReferencedByNewItems
